@@ -452,6 +452,32 @@ pub fn gen_cfg(prop: &str, seed: u64) -> RunCfg {
                     };
                     let nanos = *g.rng.pick(&[0u32, 0, 1, 500_000_000, 999_999_999, 123_456_789]);
                     ops.push(Op::SetTime(P::new(&t), f, secs, nanos));
+                } else if g.rng.pct(25) {
+                    // a setter while a write handle to the file is open: the value must survive the
+                    // publish at drop (memory keeps creation time across appends)
+                    let append = g.rng.pct(65);
+                    let t = if append { g.target(&world.m[0], Tc::File) } else { Some(g.target_w(&world.m[0], &[(Tc::File, 50), (Tc::AbsentInDir, 50)])) };
+                    if let Some(t) = t {
+                        let open = Op::OpenWrite { p: P::new(&t), append, slot: 0 };
+                        let mut probe = world.clone();
+                        if matches!(probe.apply(&open), Want::Ok(_)) {
+                            let mut blk = vec![open];
+                            if g.rng.pct(50) {
+                                blk.push(Op::HWrite(0, g.payload()));
+                            }
+                            let f = *g.rng.pick(&[TField::Created, TField::Created, TField::Modified, TField::Accessed]);
+                            blk.push(Op::SetTime(P::new(&t), f, *g.rng.pick(&[1i64, 86_400, 1_000_000_000, -86_400, 1_234_567_890]), *g.rng.pick(&[0u32, 1, 999_999_999])));
+                            blk.push(Op::HWrite(0, g.payload()));
+                            if g.rng.pct(40) {
+                                blk.push(Op::HFlush(0));
+                            }
+                            blk.push(Op::HDrop(0));
+                            for o in &blk {
+                                world.apply(o);
+                            }
+                            ops.extend(blk);
+                        }
+                    }
                 } else {
                     ops.extend(gen_history(&mut g, &mut world, 1, &grow));
                 }
